@@ -190,11 +190,20 @@ def build(mod):
             return False
         flag = c[1][1] if len(c[1]) > 1 else c[2].get('children_only', 'default (children only)')
         return flag is False        # the child itself must be renamed too: children_only=False, given explicitly
-    benv = dict(base_env, itemgetter=PExt('operator.itemgetter', lambda e, a, k: ('itemgetter',) + tuple(a)), sorted=PExt('sorted', sorted_model), reversed=PExt('reversed', reversed_model),
+    def foreign_generator(e, a, k):
+        # the module's own generator class used instead of the generator handed in (which carries the reserved words the caller
+        # configured): its names are logged under another label, so the clauses about 'generator' / 'next' cannot be met with them
+        rec['log'].append(('foreign generator', a, dict(k)))
+        rep = PObj(object, name='foreign_replacement')
+        rep.fields['__next__'] = PExt('NameGenerator.__next__ (foreign)', lambda e2, a2, k2: Str.fresh('foreign_name'))
+        rep.fields['__call__'] = PExt('NameGenerator.__call__ (foreign)', lambda e2, a2, k2: rep)
+        return rep
+    benv = dict(base_env, NameGenerator=PExt('NameGenerator (the class, not the argument)', foreign_generator), itemgetter=PExt('operator.itemgetter', lambda e, a, k: ('itemgetter',) + tuple(a)), sorted=PExt('sorted', sorted_model), reversed=PExt('reversed', reversed_model),
                 declared=Helper(lambda e, s: SBool(DECL(s.t))), child_ok=Helper(child_ok),
                 skip_is_reserved=Helper(lambda e: entry('generator') is not None and entry('generator')[2].get('skip') is rec['reserved']),
-                stored_key=Helper(lambda e: entry('store')[1][0]), stored_val=Helper(lambda e: entry('store')[1][1]),
-                generated=Helper(lambda e: entry('next')[1]),
+                stored_key=Helper(lambda e: entry('store')[1][0] if entry('store') else ('nothing stored',)), stored_val=Helper(lambda e: entry('store')[1][1] if entry('store') else ('nothing stored',)),
+                same_obj=Helper(lambda e, a, b: a is b),
+                generated=Helper(lambda e: entry('next')[1] if entry('next') else ('nothing generated by the generator handed in',)),
                 sorted_items=Helper(lambda e: entry('sorted') is not None and entry('sorted')[1][0] is rec['items'] and entry('sorted')[2].get('key') == ('itemgetter', 1, 0)))
     for nchildren in (0, 2):
         class ScopeT(object):
@@ -214,7 +223,7 @@ def build(mod):
 assert count('next') == count('store') and count('next') <= 1, 'one generated name per stored symbol'
 assert declared(symbol) == (count('next') == 1), 'exactly the locally declared symbols are renamed, none is skipped'
 if count('store') == 1:
-    assert stored_key() is symbol and stored_val() is generated(), 'the symbol is mapped to the name just generated'
+    assert same_obj(stored_key(), symbol) and same_obj(stored_val(), generated()), 'the symbol is mapped to the name just generated'
 ''']
         class Keep(object):
             """the dict / set doubles keep their state in the ghost log; nothing else of self changes in the loop"""
@@ -239,7 +248,7 @@ if count('store') == 1:
                 return 'CatchScope(%d children)' % self.n
         cs.append(Contract(MOD + ':CatchScope.build_remap_symbols', params={'self': CatchT(), 'name_generator': GenT(), 'children_only': Const(None)},
                            ensures=["count('generator') == 1", 'skip_is_reserved()', "count('next') == 1", "count('store') == 1",
-                                    'stored_key() is self.catch_symbol', 'stored_val() is generated()'] + ['child_ok(%d, name_generator)' % i for i in range(nchildren)],
+                                    'same_obj(stored_key(), self.catch_symbol)', 'same_obj(stored_val(), generated())'] + ['child_ok(%d, name_generator)' % i for i in range(nchildren)],
                            env=benv, notes='catch scope, %d children' % nchildren))
 
     # ---- Obfuscator.finalize ------------------------------------------------------------------
